@@ -380,7 +380,7 @@ impl<'c> FW<'c> {
                         macro_rules! same_n {
                             ($($V:ident),*) => { match (b, c) { $( (AnyBuild::$V(b), AnyCons::$V(c)) => { b.infer_length_from_consumer(c); } )* _ => {} } };
                         }
-                        same_n!(V0, V1, V2, V3, V5, V8);
+                        same_n!(V0, V1, V2, V3, V5, V8, V33);
                     }
                 }
             }
@@ -394,7 +394,7 @@ impl<'c> FW<'c> {
                     macro_rules! run {
                         ($($V:ident),*) => { match a { $( AnyArr::$V(x) => match map_new(x, cl, ex, held) { MapOut::Arr(r) => Some(AnyArr::$V(r)), MapOut::Returned => None }, )* } };
                     }
-                    run!(V0, V1, V2, V3, V5, V8)
+                    run!(V0, V1, V2, V3, V5, V8, V33)
                 });
                 self.macro_outcome(MACRO_NEW, what, s, false, &exp, r, *exit, "map_")?;
             }
@@ -406,7 +406,7 @@ impl<'c> FW<'c> {
                     macro_rules! run {
                         ($($n:literal $V:ident),*) => { match n { $( $n => match if old { from_fn_old::<$n>(ex) } else { from_fn_new::<$n>(ex) } { MapOut::Arr(r) => Some(AnyArr::$V(r)), MapOut::Returned => None }, )* _ => None } };
                     }
-                    run!(0 V0, 1 V1, 2 V2, 3 V3, 5 V5, 8 V8)
+                    run!(0 V0, 1 V1, 2 V2, 3 V3, 5 V5, 8 V8, 33 V33)
                 });
                 let s = self.objs.len();
                 self.macro_outcome(if old { MACRO_OLD } else { MACRO_NEW }, what, s, true, &exp, r, *exit, if old { "from_fn!" } else { "from_fn_" })?;
@@ -419,7 +419,7 @@ impl<'c> FW<'c> {
                     macro_rules! run {
                         ($($V:ident),*) => { match a { $( AnyArr::$V(x) => match map_old(x, ex) { MapOut::Arr(r) => Some(AnyArr::$V(r)), MapOut::Returned => None }, )* } };
                     }
-                    run!(V0, V1, V2, V3, V5, V8)
+                    run!(V0, V1, V2, V3, V5, V8, V33)
                 });
                 let s2 = self.objs.len();
                 self.macro_outcome(MACRO_OLD, what, s2, true, &exp, r, *exit, "map!")?;
@@ -455,18 +455,29 @@ impl<'c> FW<'c> {
                 let (n, f, b) = (*n, *front, *back);
                 let r = guard(move || {
                     macro_rules! run { ($($n:literal),*) => { match n { $( $n => copy_scenario::<$n>(f, b), )* _ => Ok(()) } }; }
-                    run!(0, 1, 2, 3, 5, 8)
+                    run!(0, 1, 2, 3, 5, 8, 33)
                 });
                 match self.expect_ok(what, r)? {
                     Ok(()) => {}
                     Err(m) => return self.fail(BUILD, "copy-future-mismatch", format!("{what}: {m}")),
                 }
             }
+            BigScenario { n, front, back, clone } => {
+                let (n, f, b, c) = (*n, *front, *back, *clone);
+                let r = guard(move || {
+                    macro_rules! run { ($($n:literal),*) => { match n { $( $n => big_scenario::<$n>(f, b, c), )* _ => Ok(()) } }; }
+                    run!(0, 1, 2, 3, 5, 8, 33)
+                });
+                match self.expect_ok(what, r)? {
+                    Ok(()) => {}
+                    Err(m) => return self.fail(BUILD, "big-element-mismatch", format!("{what}: {m}")),
+                }
+            }
             ZstScenario { n, front, back, clone } => {
                 let (n, f, b, c) = (*n, *front, *back, *clone);
                 let r = guard(move || {
                     macro_rules! run { ($($n:literal),*) => { match n { $( $n => zst_scenario::<$n>(f, b, c), )* _ => Ok(()) } }; }
-                    run!(0, 1, 2, 3, 5, 8)
+                    run!(0, 1, 2, 3, 5, 8, 33)
                 });
                 match self.expect_ok(what, r)? {
                     Ok(()) => {}
